@@ -1320,3 +1320,259 @@ func exprMentions(info *types.Info, body ast.Node, e ast.Node, name string) bool
 	}
 	return walk(e, 0)
 }
+
+// ---- rules added after the sixth round of seeded changes ----
+
+// checkPositionalReadRestoresOffset (R16.11): a positional read emulated on a seekable file (Seek, Read, Seek back) restores
+// the offset on every path on which it reads: the deferred restore stands in the block that reads, not under a condition.
+func checkPositionalReadRestoresOffset(c *core.Ctx) {
+	p := c.Pkg("internal/sysfs")
+	if p == nil {
+		return
+	}
+	info := p.TypesInfo
+	n := 0
+	core.AllFuncDecls(p, func(fd *ast.FuncDecl) {
+		// deferred calls that seek (a literal or a named function of the package)
+		var stack []ast.Node
+		ast.Inspect(fd.Body, func(x ast.Node) bool {
+			if x == nil {
+				stack = stack[:len(stack)-1]
+				return true
+			}
+			stack = append(stack, x)
+			ds, ok := x.(*ast.DeferStmt)
+			if !ok {
+				return true
+			}
+			var body ast.Node
+			if lit, ok := ds.Call.Fun.(*ast.FuncLit); ok {
+				body = lit.Body
+			} else if f := core.Callee(info, ds.Call); f != nil && f.Pkg() == p.Types {
+				if hd := declOf(p, f); hd != nil {
+					body = hd.Body
+				}
+			}
+			if body == nil {
+				return true
+			}
+			seeks := false
+			ast.Inspect(body, func(y ast.Node) bool {
+				if call, ok := y.(*ast.CallExpr); ok {
+					if se, ok := call.Fun.(*ast.SelectorExpr); ok && se.Sel.Name == "Seek" {
+						seeks = true
+					}
+				}
+				return true
+			})
+			if !seeks {
+				return true
+			}
+			// the statement list the defer stands in
+			var list []ast.Stmt
+			for i := len(stack) - 2; i >= 0 && list == nil; i-- {
+				switch b := stack[i].(type) {
+				case *ast.BlockStmt:
+					list = b.List
+				case *ast.CaseClause:
+					list = b.Body
+				}
+			}
+			// the reads of the function that come after the defer
+			var reads []*ast.CallExpr
+			ast.Inspect(fd.Body, func(y ast.Node) bool {
+				if call, ok := y.(*ast.CallExpr); ok && call.Pos() > ds.End() {
+					if se, ok := call.Fun.(*ast.SelectorExpr); ok && se.Sel.Name == "Read" && len(call.Args) == 1 {
+						reads = append(reads, call)
+					}
+				}
+				return true
+			})
+			if len(reads) == 0 {
+				return true
+			}
+			n++
+			covered := true
+			for _, r := range reads {
+				in := false
+				for _, st := range list {
+					if st.Pos() <= r.Pos() && r.End() <= st.End() {
+						in = true
+					}
+				}
+				if !in {
+					covered = false
+				}
+			}
+			c.Check(covered, "R16.11", core.FuncName(p, fd)+": the offset moved for a positional read is restored on every path that reads", ds.Pos(),
+				"the deferred Seek stands in the statement list that contains the Read",
+				"the deferred Seek that puts the offset back is registered under a condition while the Read that follows is not: when the condition does not hold (the requested offset equals the current one) the read advances the descriptor's offset, so fd_pread moves the position later fd_read/fd_tell see")
+			return true
+		})
+	})
+	if n == 0 {
+		c.Undecided("R16.11", "positional read emulated with Seek in internal/sysfs", 0, "no deferred Seek followed by a Read found")
+	}
+}
+
+// checkNoSharedSpareCapacity (R11.6): no package-level slice of the run-time packages shared by all instances has spare
+// capacity: an append on an alias of it writes the one shared backing array.
+func checkNoSharedSpareCapacity(c *core.Ctx) {
+	n := 0
+	var bad []string
+	var pos token.Pos
+	for _, rel := range []string{"internal/sys", "internal/sysfs", "imports/wasi_snapshot_preview1", "internal/wasm", "internal/descriptor", "internal/engine/interpreter", "internal/engine/wazevo"} {
+		p := c.Pkg(rel)
+		if p == nil {
+			continue
+		}
+		info := p.TypesInfo
+		for _, f := range p.Syntax {
+			for _, d := range f.Decls {
+				gd, ok := d.(*ast.GenDecl)
+				if !ok || gd.Tok != token.VAR {
+					continue
+				}
+				for _, sp := range gd.Specs {
+					vs := sp.(*ast.ValueSpec)
+					for i, nm := range vs.Names {
+						if i >= len(vs.Values) {
+							continue
+						}
+						t := info.TypeOf(nm)
+						if t == nil {
+							continue
+						}
+						if _, isSlice := t.Underlying().(*types.Slice); !isSlice {
+							continue
+						}
+						n++
+						call, ok := ast.Unparen(vs.Values[i]).(*ast.CallExpr)
+						if !ok || !core.IsBuiltin(info, call, "make") || len(call.Args) != 3 {
+							continue
+						}
+						l, okL := core.ConstVal(info, call.Args[1])
+						k, okK := core.ConstVal(info, call.Args[2])
+						if !okL || !okK || k > l {
+							bad = append(bad, fmt.Sprintf("%s.%s = %s at %s", core.Rel(p.PkgPath), nm.Name, core.ExprStr(call), c.Pos(nm.Pos())))
+							pos = nm.Pos()
+						}
+					}
+				}
+			}
+		}
+	}
+	c.Check(len(bad) == 0, "R11.6", "no package-level slice of the run-time packages has spare capacity", pos,
+		fmt.Sprintf("%d package-level slices, none made with a capacity above its length", n),
+		strings.Join(bad, "; ")+": every instance that appends to a value derived from it writes the same backing array – entries of one instance (directory listings, …) show up in another")
+}
+
+// checkPinnedFieldsNotReassigned (R09.10): a field of the instance whose elements' addresses the compiler records as raw
+// integers in the module context (`&inst.F[0]`) is never reassigned on a close path: functions of live importers still run
+// through those addresses after the instance is closed.
+func checkPinnedFieldsNotReassigned(c *core.Ctx) {
+	mi := namedIn(c, "internal/wasm", "ModuleInstance")
+	if mi == nil {
+		return
+	}
+	// pinned fields: uintptr(unsafe.Pointer(&X.F[k])) with X a ModuleInstance, in the compiler
+	pinned := map[*types.Var]token.Pos{}
+	for _, fn := range moduleFns(c, wzv) {
+		for _, b := range fn.Blocks {
+			for _, in := range b.Instrs {
+				cv, ok := in.(*ssa.Convert)
+				if !ok {
+					continue
+				}
+				if xb, ok := cv.X.Type().Underlying().(*types.Basic); !ok || xb.Kind() != types.UnsafePointer {
+					continue
+				}
+				var ptr ssa.Value
+				switch c2 := cv.X.(type) {
+				case *ssa.Convert:
+					ptr = c2.X
+				case *ssa.ChangeType:
+					ptr = c2.X
+				}
+				ia, ok := ptr.(*ssa.IndexAddr)
+				if !ok {
+					continue
+				}
+				ld, ok := ia.X.(*ssa.UnOp)
+				if !ok {
+					continue
+				}
+				fa, ok := ld.X.(*ssa.FieldAddr)
+				if !ok || core.NamedOf(fa.X.Type()) != mi {
+					continue
+				}
+				if f := fieldOfAddr(fa); f != nil {
+					pinned[f] = cv.Pos()
+				}
+			}
+		}
+	}
+	if len(pinned) == 0 {
+		c.Undecided("R09.10", "fields whose element addresses the compiler records", 0, "none found")
+		return
+	}
+	// close paths: what the resource-release function and the Close* methods reach inside internal/wasm (depth 3)
+	reach := map[*ssa.Function]bool{}
+	var work []*ssa.Function
+	for _, fn := range moduleFns(c, "internal/wasm") {
+		if fn.Signature.Recv() != nil && core.NamedOf(fn.Signature.Recv().Type()) == mi {
+			nm := fn.Name()
+			if nm == "ensureResourcesClosed" || strings.HasPrefix(nm, "Close") || strings.HasPrefix(nm, "closeWith") {
+				reach[fn] = true
+				work = append(work, fn)
+			}
+		}
+	}
+	for d := 0; d < 3; d++ {
+		var next []*ssa.Function
+		for _, fn := range work {
+			for _, b := range fn.Blocks {
+				for _, in := range b.Instrs {
+					if call, ok := in.(ssa.CallInstruction); ok {
+						if sc := call.Common().StaticCallee(); sc != nil && sc.Blocks != nil && sc.Pkg == fn.Pkg && !reach[sc] {
+							reach[sc] = true
+							next = append(next, sc)
+						}
+					}
+				}
+			}
+		}
+		work = next
+	}
+	var names []string
+	for f := range pinned {
+		names = append(names, f.Name())
+	}
+	sort.Strings(names)
+	var bad []string
+	var pos token.Pos
+	var fns []*ssa.Function
+	for fn := range reach {
+		fns = append(fns, fn)
+	}
+	sort.Slice(fns, func(i, j int) bool { return fns[i].String() < fns[j].String() })
+	for _, fn := range fns {
+		for _, b := range fn.Blocks {
+			for _, in := range b.Instrs {
+				if st, ok := in.(*ssa.Store); ok {
+					if fa, ok := st.Addr.(*ssa.FieldAddr); ok && core.NamedOf(fa.X.Type()) == mi {
+						if f := fieldOfAddr(fa); f != nil {
+							if _, isPinned := pinned[f]; isPinned {
+								bad = append(bad, fmt.Sprintf("%s assigned in %s at %s", f.Name(), fn.Name(), c.Pos(st.Pos())))
+								pos = st.Pos()
+							}
+						}
+					}
+				}
+			}
+		}
+	}
+	c.Check(len(bad) == 0, "R09.10", "instance fields pinned by raw element addresses ("+strings.Join(names, ", ")+") are not reassigned on close paths", pos,
+		fmt.Sprintf("%d close-path functions of ModuleInstance examined, no assignment to a pinned field", len(reach)),
+		strings.Join(bad, "; ")+": the compiler's module context holds &field[0] as a plain integer, and functions that live importers took from the closed instance keep running: their memory.init/table.init then read freed and reused heap")
+}
